@@ -245,6 +245,13 @@ def conforms(value, spec):
         return isinstance(value, Mapping)
     if isinstance(ty, TSet):
         return isinstance(value, (set, frozenset))
+    from .types import TEnum, TOpt
+    import enum
+
+    if isinstance(ty, TOpt):
+        return value is None or conforms(value, ty.t)
+    if isinstance(ty, TEnum):
+        return isinstance(value, enum.Enum)
     return True
 
 
@@ -363,11 +370,25 @@ class Monitor:
                 v = env[k]
                 if isinstance(v, (dict, list, set)):
                     env["old_" + k] = copy.copy(v)
-                elif hasattr(v, "__dict__") and isinstance(c.params.get(k), dict):
-                    # receiver modelled as a mutable object: snapshot its container attributes (no __getattr__ games)
+                elif isinstance(c.params.get(k), dict) and (hasattr(v, "__dict__") or hasattr(type(v), "__slots__")):
+                    # receiver modelled as a mutable object: snapshot its attributes (no __getattr__ games)
                     snap = _Snap()
-                    for a, av in list(vars(v).items()):
+                    items = list(vars(v).items()) if hasattr(v, "__dict__") else []
+                    for klass in type(v).__mro__:
+                        for a in getattr(klass, "__slots__", ()):
+                            try:
+                                items.append((a, object.__getattribute__(v, a)))
+                            except AttributeError:
+                                pass
+                    for a, av in items:
                         snap.__dict__[a] = copy.copy(av) if isinstance(av, (dict, list, set)) else av
+                    # contract attribute names that are properties over private slots (e.g. kind -> _kind)
+                    for a in c.params[k]:
+                        if a != "__class__" and a not in snap.__dict__:
+                            try:
+                                snap.__dict__[a] = getattr(v, a)
+                            except Exception:
+                                pass
                     env["old_" + k] = snap
                 else:
                     env["old_" + k] = v
